@@ -3,7 +3,7 @@
 EXTENDS IPCStreams
 VARIABLE sel
 GenInit == Init /\ sel = 0
-Pick == sel = 0 /\ last.a # "close" /\ sel' \in 1..12 /\ UNCHANGED vars
+Pick == sel = 0 /\ last.a # "close" /\ sel' \in 1..15 /\ UNCHANGED vars
 Act ==
   /\ sel # 0 /\ sel' = 0
   /\ CASE sel \in {1, 2, 3} -> \E s \in SeqIds, f \in Filters : Do([a |-> "stream", seq |-> s, f |-> f])
@@ -12,6 +12,10 @@ Act ==
        [] sel = 6          -> \E s \in SeqIds : Do([a |-> "members", seq |-> s])
        [] sel = 7          -> \E s \in SeqIds, n \in {1, 2} : Do([a |-> "query", seq |-> s, n |-> n, id |-> Id])
        [] sel \in 8..11    -> \E evs \in Bursts : Do([a |-> "emit", evs |-> evs])
+       [] sel \in 13..15   -> \* slow reader, only worth it while some stream is open
+                              IF \E s \in SeqIds : C.strs[s] # 0
+                              THEN \E evs \in Bursts, q \in SlowReqs : Do([a |-> "slow", evs |-> evs, req |-> q])
+                              ELSE \E s \in SeqIds, f \in Filters : Do([a |-> "stream", seq |-> s, f |-> f])
        [] sel = 12         -> IF steps > 3 /\ steps % 7 = 0 /\ C.mon = 0   \* (a debug monitor turns a burst into a log storm)
                               THEN Do([a |-> "burst", n |-> 1, m |-> BufSize + 88, id |-> Id * 1000])
                               ELSE \E evs \in Bursts : Do([a |-> "emit", evs |-> evs])
